@@ -7,6 +7,7 @@ from (never a re-parse of the text, never a constant imported from psutil).
 """
 import ctypes
 import os
+import random
 import re
 import warnings
 from fractions import Fraction
@@ -89,6 +90,13 @@ def render_meminfo(case):
             out.append("%-16s%8d\n" % (k + ":", v))
         else:
             out.append("%-16s%8d kB\n" % (k + ":", v))
+    order = case.get("line_order")
+    if order == "sorted":
+        out.sort()                      # a procfs emulation that builds its own file (alphabetical)
+    elif order == "reversed":
+        out.reverse()
+    elif isinstance(order, int):
+        random.Random(order).shuffle(out)
     return "".join(out).encode()
 
 
@@ -278,7 +286,9 @@ def gen_case(rng):
     if zones is not None:
         zones = [min(z, 2**38) for z in zones]
     return dict(mem=mem, zones=zones, zstyle=rng.choice([0, 0, 1, 2]), vmstat=vm, filler=rng.random() < 0.8,
-                origin=prof, absent_as=rng.choice(["enoent", "enoent", "eacces"]))
+                origin=prof, absent_as=rng.choice(["enoent", "enoent", "eacces"]),
+                line_order=rng.choice([None] * 8 + ["sorted", "reversed", rng.randrange(10**6)]),
+                changing=rng.random() < 0.12)
 
 
 # ----------------------------------------------------------------------------------------------
@@ -567,7 +577,23 @@ def run_case(case, acc):
     env = setup()
     ps, vkernel, pagesize = env["ps"], env["vkernel"], env["pagesize"]
     fs = vkernel.MemFS()
-    fs.put("meminfo", render_meminfo(case))
+    first = render_meminfo(case)
+    if case.get("changing"):
+        # the kernel's figures move on between two reads: one result must describe one snapshot - every read after the
+        # first within a call sees a machine whose memory was meanwhile eaten up
+        later = first
+        for key in (b"MemFree:", b"MemAvailable:", b"Cached:", b"SwapFree:", b"Active(file):", b"Inactive(file):", b"SReclaimable:"):
+            later = re.sub(rb"(?m)^(" + re.escape(key) + rb"\s+)\d+", lambda m_: m_.group(1) + b"7", later)
+        reads = [0]
+
+        def serve():
+            reads[0] += 1
+            return first if reads[0] == 1 else later
+        fs.put("meminfo", vkernel.F(serve))
+        acc.count("cases_with_meminfo_changing_between_reads")
+    else:
+        reads = None
+        fs.put("meminfo", first)
     if case["zones"] is not None:
         fs.put("zoneinfo", render_zoneinfo(case))
     if case["vmstat"] is not None:
@@ -596,6 +622,8 @@ def run_case(case, acc):
             v, b = check_vm(case, got, wl, pagesize, acc)
             viols += v
             branches |= b
+        if reads is not None:
+            reads[0] = 0                 # swap_memory() is a call of its own: its first read is the current snapshot again
         sys_before = sysinfo_swap()
         with warnings.catch_warnings(record=True) as wl:
             warnings.simplefilter("always")
